@@ -62,6 +62,24 @@ HX int h_prog(int id, int n, int n2, int n3, const double* x, const int* idx, in
     case 61: { arr_real a = mk_real(x, n); a.slice(idx[0], idx[1], idx[2]) = 7.5; put_real(a, y); return a.size(); }
     case 62: { arr_real a = mk_real(x, n); arr_real b = mk_real(x + n, n2); a.slice(idx[0], idx[1], idx[2]) = b; put_real(a, y); return a.size(); }
     case 63: { arr_cmplx a = mk_cmplx(x, n); const arr_cmplx& ca = a; arr_cmplx r = *ca.slice(idx[0], idx[1], idx[2]); put_cmplx(r, y); return r.size(); }
+    // ---- analysis functions at degenerate overlaps / peak positions, transforms of empty arrays
+    case 64: { auto s = stft(mk_real(x, n2), window::hann(n), n3, n); return (int)s.size(); }
+    case 65: { auto s = stft(mk_real(x, n2), window::hann(n), n3 > 0 && n3 < n ? n3 : n / 2, n); arr_real r = istft(s, window::hann(n), n3, n); put_real(r, y); return r.size(); }
+    case 66: return iscola(window::hann(n), n3) ? 1 : 0;
+    case 67: case 68: case 69: {    // power spectrum of n bins with its peak at bin n2; n3 = 2*nharm + aliased
+        arr_real sp(n); for (int i = 0; i < n; ++i) sp[i] = 1e-3 * (1 + 0.1 * (i % 3)); if (n2 >= 0 && n2 < n) sp[n2] = 1.0;
+        if (id == 67) { auto t = thd(sp, n3 / 2, (n3 & 1) != 0, SinadType::Power); y[0] = t.value; put_real(t.harmpow, y + 1); return t.harmpow.size(); }
+        if (id == 68) { y[0] = snr(sp, n3 / 2, (n3 & 1) != 0, SinadType::Power); return 1; }
+        y[0] = sinad(sp, SinadType::Power); return 1; }
+    case 75: case 76: {             // time signal of 2n samples: tone at n2/(2n) cycles per sample
+        arr_real t(2 * n); for (int i = 0; i < 2 * n; ++i) t[i] = std::cos(pi * n2 * i / n) + 1e-3 * x[i % 8];
+        if (id == 75) { auto r = thd(t, n3 / 2, (n3 & 1) != 0); y[0] = r.value; return r.harmpow.size(); }
+        y[0] = snr(t, n3 / 2, (n3 & 1) != 0); return 1; }
+    case 70: { arr_cmplx r = fft(mk_cmplx(x, n)); put_cmplx(r, y); return r.size(); }
+    case 71: { arr_cmplx r = fft(mk_real(x, n)); put_cmplx(r, y); return r.size(); }
+    case 72: { arr_cmplx r = rfft(mk_real(x, n)); put_cmplx(r, y); return r.size(); }
+    case 73: { arr_cmplx r = ifft(mk_cmplx(x, n)); put_cmplx(r, y); return r.size(); }
+    case 74: { arr_real r = irfft(mk_cmplx(x, n)); put_real(r, y); return r.size(); }
     default: return -3;
     }
     H_END
